@@ -37,11 +37,11 @@ def elemStr : Elem → String
 def idsStr (xs : List Nat) : String := "[" ++ ",".intercalate (xs.map toString) ++ "]"
 
 def sparse (es : List Elem) : String :=
-  let rec go (i : Nat) : List Elem → List String
-    | [] => []
-    | none :: rest => go (i + 1) rest
-    | some x :: rest => s!"{i}:{x}" :: go (i + 1) rest
-  "[" ++ ",".intercalate (go 0 es) ++ "]"
+  let (_, acc) := es.foldl (fun (p : Nat × Array String) e =>
+    match e with
+    | none => (p.1 + 1, p.2)
+    | some x => (p.1 + 1, p.2.push s!"{p.1}:{x}")) (0, #[])
+  "[" ++ ",".intercalate acc.toList ++ "]"
 
 def sortNat (xs : List Nat) : List Nat := (xs.toArray.qsort (· < ·)).toList
 
@@ -94,12 +94,20 @@ def served (v : Seq.Verdict) (ok refuse : String × Seq.Seq × List Nat) : SpecA
   | .mustRefuse => { alts := [refuse] }
   | .either => { alts := [ok, refuse] }
 
+/-- sequences longer than this are never materialised by the driver: the harness caps allocations
+far below, so a served answer of that length cannot be observed in a run; it is rendered as a
+placeholder that no implementation line equals -/
+def bigLen : Nat := 4 * 1024 * 1024
+
+def tooLong (s : Seq.Seq) : String × Seq.Seq × List Nat := ("r=0 <longer than the run can hold>", s, [])
+
 def specStep (j : Bool) (s : Seq.Seq) : Op → SpecAns
   | .add v => served (Seq.fits (s.length + 1)) ("r=0", Seq.add s v, []) ("r=-1", s, [])
-  | .put i v => served (Seq.fits (i + 1)) ("r=0", Seq.put s i v, Seq.putReleased s i) ("r=-1", s, [])
+  | .put i v =>
+    served (Seq.fits (i + 1)) (if i > bigLen then tooLong s else ("r=0", Seq.put s i v, Seq.putReleased s i)) ("r=-1", s, [])
   | .ins i v =>
     if i < s.length then served (Seq.fits (s.length + 1)) ("r=0", Seq.insert s i v, []) ("r=-1", s, [])
-    else served (Seq.fits (i + 1)) ("r=0", Seq.insert s i v, Seq.putReleased s i) ("r=-1", s, [])
+    else served (Seq.fits (i + 1)) (if i > bigLen then tooLong s else ("r=0", Seq.insert s i v, Seq.putReleased s i)) ("r=-1", s, [])
   | .del i n =>
     if Seq.delOk s i n then { alts := [("r=0", Seq.del s i n, Seq.delReleased s i n)] }
     else { alts := [("r=-1", s, [])] }
